@@ -18,7 +18,7 @@ func init() {
 		Assumptions: []string{"registration-time ASG tagging (addASGTags → CreateOrUpdateTags) is not one of the statement's write classes and is exempt by name"}})
 	register(&propSpec{ID: "C01", Run: checkC01,
 		Explanation: "Safety on all paths: instance termination and Node deletion are issued only by the delete step, which receives exactly the nodes the two reapers appended; the grace reaper's append is guarded by taint-time-readable ∧ ((age > soft ∧ empty) ∨ age > hard) with age built from that node's own stored taint time and strict comparisons, the force reaper's by emptiness; the lists the reapers range over are the classifier's tainted / force-tainted lists, whose appends require ¬cordoned ∧ taint present (outside dry mode); emptiness counts every non-daemonset pod of the group's pod list filed under the node's name; the reapers read no remembered state besides Opts and the NodeInfoMap rebuilt earlier in the same scan.",
-		RuleText:    "obligation = rule id + construct; R1/R2 deletion flow + element provenance, R3 grace guard implication, R4 force guard, R5 classification guards + scaleOpts binding, R6 emptiness shape, R7 restart invariance, R8 listed Node / Pod objects and lists are never written (the taint and its time are read from the cluster's state, not from a locally modified copy), R9 the listers hand out exactly what the group filter accepts, R10 the taint time is read back in the representation it was written in, R11 the informers list every pod that can still run and every node, R12 no client before both caches synced",
+		RuleText:    "obligation = rule id + construct; R1/R2 deletion flow + element provenance, R3 grace guard implication, R4 force guard, R5 classification guards + scaleOpts binding, R6 emptiness shape, R7 restart invariance, R8 listed Node / Pod objects and lists are never written (the taint and its time are read from the cluster's state, not from a locally modified copy), R9 the listers hand out exactly what the group filter accepts, R10 the taint time is read back in the representation it was written in, R11 the informers list every pod that can still run and every node, R12 no client before both caches synced, R13 the group filters are the documented predicates",
 		Assumptions: []string{"the informer cache is the cluster view of the scan", "strconv/time semantics; the value of the clock", "soft < hard is C16's concern"}})
 	register(&propSpec{ID: "C09", Run: checkC09,
 		Explanation: "Outside dry mode no action site can receive a node that was cordoned in this scan's snapshot: the classifier appends to untainted/tainted/force-tainted only under ¬Unschedulable; the node arguments of taint / untaint / delete have provenance in those lists only (interprocedural parameter binding up to the scan body); capacity, percent node count and delta node list are taken from the untainted list; the cordoned list flows only to len/logging/metrics.",
@@ -55,6 +55,15 @@ func checkC11(ck *Check) {
 			continue
 		}
 		ctx := ck.P.NewCtx(s.Fn)
+		if imp, _, _ := Entails(ctx.PC(s.Call), req); !imp {
+			// the guard may be taken by the caller and handed in as a flag (dry mode evaluated once,
+			// before a loop): decided at every call site with the arguments bound
+			if ck.dryGuardAtCallers(s) {
+				ck.ok("C11.R1", key, ck.P.instrPos(s.Call), funcID(s.Fn), "PC ⇒ ¬(c.Opts.DryMode ∨ g.Opts.DryMode) at "+s.Class, "at every call site of "+funcID(s.Fn)+", with its arguments bound")
+				guarded++
+				continue
+			}
+		}
 		if ck.entails("C11.R1", key, s.Call, ctx.PC(s.Call), req, "PC ⇒ ¬(c.Opts.DryMode ∨ g.Opts.DryMode) at "+s.Class) {
 			guarded++
 		}
@@ -421,6 +430,9 @@ func checkC01(ck *Check) {
 	ck.clusterView("C01.R11")
 	// R12: and on caches that have been filled: no client before both informers synced
 	ck.cacheSynced("C01.R12")
+	// R13: "runs no pods belonging to the node group" uses the group's pod list: a pod the group
+	// filter wrongly rejects makes its node look empty (the filter predicates, decided as C14)
+	ck.filterPredicates(func(int) string { return "C01.R13" })
 }
 
 // classification checks the classifier's appends. want maps result index → role:
@@ -1654,4 +1666,49 @@ func (ck *Check) daemonSetOfElem(ctx *Ctx, l *Loop) *Formula {
 	over := ctx.Term(l.Over)
 	el := &Term{Kind: "elem", Args: []*Term{over}, ID: "L" + ctx.instrID(l.IdxPhi), Typ: elemTypeOf(over.Typ)}
 	return boolResultFormula(ctx, isDS, []*Term{el}, 0)
+}
+
+// dryGuardAtCallers: the action site s sits in a helper; at every static call of that helper, with
+// the helper's parameters bound to the arguments, path condition of the call ∧ path condition of
+// the site implies ¬dry(g) in the caller's vocabulary.
+func (ck *Check) dryGuardAtCallers(s Site) bool {
+	h := s.Fn
+	for _, g := range ck.P.addressTaken() {
+		if g == h {
+			return false
+		}
+	}
+	n := 0
+	for _, caller := range ck.P.callers[h] {
+		sites := callsTo(caller, h)
+		if len(sites) == 0 {
+			return false
+		}
+		req, err := ck.notDry(caller)
+		if err != nil {
+			return false
+		}
+		cctx := ck.P.NewCtx(caller)
+		for _, ci := range sites {
+			call, ok := ci.(*ssa.Call)
+			if !ok {
+				return false
+			}
+			args := make([]*Term, len(call.Common().Args))
+			for i, av := range call.Common().Args {
+				t := cctx.Term(av)
+				if isBool(av.Type()) {
+					t = formulaTerm(cctx.Formula(av))
+				}
+				args[i] = t
+			}
+			ch := cctx.child(h, call, args)
+			ch.depth = 0
+			n++
+			if imp, _, _ := Entails(And(cctx.PC(call), ch.PC(s.Call)), req); !imp {
+				return false
+			}
+		}
+	}
+	return n > 0
 }
